@@ -280,4 +280,101 @@ theorem tls13_connection_exact (H : Crypto.Prims) (P : Prims) (L : SealLaws P) (
   rw [hmerge d, htr2, htr1]
   cases d <;> rfl
 
+-- ====================================================================== non-vacuity: one TLS 1.2 connection, all hypotheses
+namespace Ex
+open TLX.Props.C01Pipeline.Ex2 TLX.Props.C01.Ex
+
+theorem gen_eq (x : Except PyErr (Option KeySchedule.Installed)) (k : KeySchedule.Keys6)
+    (h : (match x with | .ok (some (.legacy k')) => decide (k' = k) | _ => false) = true) :
+    x = .ok (some (.legacy k)) := by
+  cases x with
+  | error e => simp at h
+  | ok o =>
+    cases o with
+    | none => simp at h
+    | some i =>
+      cases i with
+      | legacy k' => simp only [decide_eq_true_eq] at h; rw [h]
+      | tls13 _ => simp at h
+
+/-- TLS_RSA_WITH_AES_128_GCM_SHA256 as the suite table resolves it, the key-log line, the key block -/
+def ps0 : CipherSuite.Params := (CipherSuite.resolve (Bytes.beNat [0x00, 0x9c])).getD []
+def a0 : Pipeline.SuiteArgs := (Pipeline.suiteArgs ps0).getD ⟨⟨.other, false, false, 0, .sha1⟩, .none, none⟩
+def f0 : Keylog.Key :=
+  ⟨Keylog.s_CLIENT_RANDOM, Keylog.hexOf (Pipeline.natsOfBytes cr0), Keylog.hexOf (List.replicate 48 5)⟩
+def secrets0 : List KeySchedule.Secret := (Pipeline.secretsOf false [f0]).getD []
+def k0 : KeySchedule.Keys6 :=
+  match KeySchedule.generateKeys hashes .tls12 a0.ks secrets0 cr0 sr0 with
+  | .ok (some (.legacy k)) => k
+  | _ => ⟨[], [], [], [], [], []⟩
+def fr : Fresh := ⟨iv8, [], [], 0⟩
+def cls0 : CipherClass := .aead12 .aesgcm 16
+
+/-- ClientHello, ServerHello; the client: ClientKeyExchange, CCS, Finished, "hi", an empty record; the server:
+    Certificate…ServerHelloDone in one record, CCS, Finished, 16 bytes -/
+def t0 : Transcript :=
+  { ch := ch0, sh := sh12, rvC := [3, 1], rvS := [3, 3], ver := [3, 3],
+    cEvs := [.clear [16, 0, 0, 2, 9, 9], .ccs, .enc 22 (20 :: 0 :: 0 :: 12 :: k16.take 12) fr, .enc 23 hi fr,
+             .enc 23 [] fr],
+    sEvs := [.clear [11, 0, 0, 3, 1, 2, 3, 14, 0, 0, 0], .ccs, .enc 22 (20 :: 0 :: 0 :: 12 :: k16.take 12) fr,
+             .enc 23 k16 fr] }
+
+def recsOfDir (d : Bool) : List Bytes := t0.records Cipher.Toy.prims Cipher.Toy.laws cls0 (legacySnd k0) d
+def rC (i : Nat) : Bytes := (recsOfDir false).getD i []
+def rS (i : Nat) : Bytes := (recsOfDir true).getD i []
+
+/-- the capture: (from server?, payload, offset in the direction's stream). The ClientHello in two segments; the
+    ServerHello and the certificate flight coalesced; the client's application data BEFORE the server's CCS/Finished
+    (False Start) and retransmitted later; a server record split over two segments; the client's stream wraps 2^32. -/
+def cap0 : List (Bool × Bytes × Nat) :=
+  [(false, (rC 0).take 20, 0), (false, (rC 0).drop 20, 20), (true, rS 0 ++ rS 1, 0),
+   (false, rC 1 ++ rC 2 ++ rC 3, 50), (false, rC 4, 112), (true, rS 2 ++ rS 3, 73), (true, (rS 4).take 10, 124),
+   (false, rC 4, 112), (true, (rS 4).drop 10, 134), (false, rC 5, 143)]
+def isnOf (d : Bool) : Nat := if d then 77 else 4294967290
+def pktsCap : List MainLoop.Pkt := (List.range cap0.length).map fun i =>
+  mkPkt (cap0.getD i (false, [], 0)).1 (cap0.getD i (false, [], 0)).2.1 i
+def infoCap (tag : Nat) : Pipeline.Info :=
+  ⟨(isnOf (cap0.getD tag (false, [], 0)).1 + (cap0.getD tag (false, [], 0)).2.2) % 4294967296, 1000 + tag, [1], [2], false⟩
+def connCap : Pipeline.Conn := ⟨⟨[443], false, false, false, true, []⟩, sEp, cEp, [2], [1], false, pktsCap⟩
+
+/-- the cut of each direction's stream that the capture shows -/
+def chunksOf (d : Bool) : List Bytes :=
+  if d then [rS 0 ++ rS 1, rS 2 ++ rS 3, (rS 4).take 10, (rS 4).drop 10]
+  else [(rC 0).take 20, (rC 0).drop 20, rC 1 ++ rC 2 ++ rC 3, rC 4, rC 5]
+
+theorem delivered0 : DeliveredInOrder infoCap connCap
+    (t0.stream Cipher.Toy.prims Cipher.Toy.laws cls0 (legacySnd k0)) := by
+  intro d
+  cases d
+  · refine ⟨⟨isnOf false, ?_⟩, by decide +kernel⟩
+    have hcut : IsCut (t0.stream Cipher.Toy.prims Cipher.Toy.laws cls0 (legacySnd k0) false) (chunksOf false) :=
+      ⟨by decide +kernel, by decide +kernel⟩
+    have h := Delivers.cut (k := 0) (isn := isnOf false) (chunksOf false) hcut
+    -- the retransmitted segment: an exact duplicate behind its original
+    have hd := Delivers.dup (k := 0) (isn := isnOf false)
+      ((segsOf (isnOf false) 0 (chunksOf false)).take 3) [] ((segsOf (isnOf false) 0 (chunksOf false)).drop 4)
+      ((segsOf (isnOf false) 0 (chunksOf false)).getD 3 (0, []))
+      (by
+        have e : (segsOf (isnOf false) 0 (chunksOf false)).take 3 ++
+            (segsOf (isnOf false) 0 (chunksOf false)).getD 3 (0, []) ::
+              ([] ++ (segsOf (isnOf false) 0 (chunksOf false)).drop 4) = segsOf (isnOf false) 0 (chunksOf false) := by
+          decide +kernel
+        rw [e]; exact h)
+    have e2 : (dirSegs infoCap connCap.server false connCap.pkts).map Props.C05.wire =
+        (segsOf (isnOf false) 0 (chunksOf false)).take 3 ++
+          (segsOf (isnOf false) 0 (chunksOf false)).getD 3 (0, []) ::
+            ([] ++ (segsOf (isnOf false) 0 (chunksOf false)).getD 3 (0, []) ::
+              (segsOf (isnOf false) 0 (chunksOf false)).drop 4) := by decide +kernel
+    unfold InOrder
+    rw [e2]; exact hd
+  · refine ⟨⟨isnOf true, ?_⟩, by decide +kernel⟩
+    have hcut : IsCut (t0.stream Cipher.Toy.prims Cipher.Toy.laws cls0 (legacySnd k0) true) (chunksOf true) :=
+      ⟨by decide +kernel, by decide +kernel⟩
+    have e2 : (dirSegs infoCap connCap.server true connCap.pkts).map Props.C05.wire
+        = segsOf (isnOf true) 0 (chunksOf true) := by decide +kernel
+    unfold InOrder
+    rw [e2]; exact Delivers.cut _ hcut
+
+end Ex
+
 end TLX.Props.C01Capstone
